@@ -122,6 +122,17 @@ def run(ctx):
                         same = len(o2.value) == len(o.value) and all(np.array_equal(np.asarray(a), np.asarray(b))
                                                                      for a, b in zip(o2.value, o.value))
                         ctx.check(same, 'form:edges-depend-on-argument-form', cid, form=fname, **d)
+                if c % 3 == 0 and (sc in ('linear', 'log') or kw):
+                    # a sample without events (e.g. after a gate that keeps nothing) has the same channels and ranges: linear
+                    # and log edges, and logicle edges with explicit parameters, are a function of those alone
+                    s3 = fresh()[:0]
+                    o3 = core.attempt(lambda: s3.hist_bins(ch, nb, sc, **kw))
+                    ctx.counters['chk:empty'] += 1
+                    if ctx.check(not o3.raised, 'hist_bins:empty-sample-refused', cid, exc=core.exc_str(o3.exc) if o3.raised else None, **d):
+                        a3 = o3.value if is_list else [o3.value]
+                        b3 = o.value if is_list else [o.value]
+                        ctx.check(len(a3) == len(b3) and all(np.array_equal(np.asarray(x), np.asarray(y)) for x, y in zip(a3, b3)),
+                                  'hist_bins:empty-sample-other-edges', cid, **d)
             nt = nb is None or 'log' in (sc if isinstance(sc, list) else [sc]) or not isint
             ctx.case_done(class_key=('call', state, 'int' if isint else 'float', ('all', 'pos', 'name', 'list', 'list')[form],
                                      'n-default' if nb is None else ('n-list' if isinstance(nb, list) else 'n'),
